@@ -7,7 +7,8 @@ import (
 	"time"
 )
 
-// VerifSetTiming replaces the wrapper timing constants; zero leaves a value unchanged.
+// VerifSetTiming replaces the wrapper timing constants: statusCheck when > 0, the two timeouts when
+// >= 0 (a negative value leaves that timeout unchanged; zero means "already expired").
 func VerifSetTiming(statusCheck, waitResponse, startErr time.Duration) {
 	if statusCheck > 0 {
 		statusCheckInterval = statusCheck
